@@ -77,6 +77,8 @@ port_by_scheme = {"http": 80, "https": 443}
 RECENT_DATE = datetime.date(2023, 6, 1)
 
 _CONTAINS_CONTROL_CHAR_RE = re.compile(r"[^-!#$%&'*+.^_`|~0-9a-zA-Z]")
+_TUNNEL_HOST_ILLEGAL_CHAR_RE = re.compile(r"[\x00-\x20\x7f]")
+_TUNNEL_HEADER_VALUE_ILLEGAL_CHAR_RE = re.compile(r"[\x00\r\n]")
 
 
 class HTTPConnection(_HTTPConnection):
@@ -229,6 +231,17 @@ class HTTPConnection(_HTTPConnection):
             raise ValueError(
                 f"Invalid proxy scheme for tunneling: {scheme!r}, must be either 'http' or 'https'"
             )
+        # The CONNECT request is written from the host and these headers as they
+        # are, so neither may carry anything that ends a line or a token.
+        if _TUNNEL_HOST_ILLEGAL_CHAR_RE.search(host):
+            raise ValueError(
+                f"Tunnel host cannot contain control characters or spaces. {host!r}"
+            )
+        for name, value in (headers or {}).items():
+            if not name or _CONTAINS_CONTROL_CHAR_RE.search(name):
+                raise ValueError(f"Invalid tunnel header name {name!r}")
+            if _TUNNEL_HEADER_VALUE_ILLEGAL_CHAR_RE.search(value):
+                raise ValueError(f"Invalid tunnel header value {value!r}")
         super().set_tunnel(host, port=port, headers=headers)
         self._tunnel_scheme = scheme
 
